@@ -502,7 +502,10 @@ use core::fmt::Debug;
 use core::panic::RefUnwindSafe;
 use core::panic::UnwindSafe;
 
+#[cfg(not(unimock_verif))]
 use once_cell::sync::OnceCell;
+#[cfg(unimock_verif)]
+use verif::OnceCell;
 
 use alloc::Box;
 use assemble::MockAssembler;
